@@ -182,7 +182,8 @@ def propPred (prop : String) (mode : String) (tr : Trace) : Option String :=
   | "C01" => if P01 tr then none else some "P01-only-verified-data-stored"
   | "C10" => if P10 Rdest.Gen.PIECE_BLOCK_SIZE tr then none else some "P10-request-tiling"
   | "C09" => if P09 Rdest.Gen.PIECE_BLOCK_SIZE tr then none else some "P09-upload-discipline"
-  | "C08" => if P08 ourInfoHash ourId expected tr then none else some "P08-handshake-gate"
+  | "C08" => if !P08 ourInfoHash ourId expected tr then some "P08-handshake-gate"
+             else if !P08h ourInfoHash ourId expected tr then some "P08-have-announced-before-a-handshake-validated" else none
   | "C20" => if P20 Rdest.Gen.KEEP_ALIVE_LIMIT 0 tr then none else some "P20-keepalive-discipline"
   | "C06" => if P06 tr then none else some "T5-receive-error-does-not-end-the-task"
   | _ => none
